@@ -11,14 +11,48 @@ import (
 // Profile steers the history generator towards the part of the command space a
 // property is about. All oracles run under every profile.
 type Profile struct {
-	Name     string
-	Weights  map[string]int // op kind -> weight
-	BadRef   int            // percent chance that a reference is drawn from a wrong role
-	Spoil    int            // percent chance that an op gets one extra failing ingredient
-	Results  int            // percent chance that set/new carries a result attachment
-	HoldLock int            // percent chance that a mutating op runs while the harness holds the lock
-	MaxSteps int
-	MinSteps int
+	Name       string
+	Weights    map[string]int // op kind -> weight
+	BadRef     int            // percent chance that a reference is drawn from a wrong role
+	Spoil      int            // percent chance that an op gets one extra failing ingredient
+	Results    int            // percent chance that set/new carries a result attachment
+	HoldLock   int            // percent chance that a mutating op runs while the harness holds the lock
+	MaxSteps   int
+	MinSteps   int
+	EpicPct    int      // percent of new/set ops that carry an epic field (default 30)
+	SeqEpicPct int      // percent of sequence ops over epics (default 30)
+	StatePool  []string // states to draw from (default: all, doing/done doubled)
+	StatePct   int      // percent of new/set ops with a state field (default 45)
+	ClaimPct   int      // percent with a claim field (default 30)
+	MixedPct   int      // percent of sequence ops aimed at the task/epic two-level interaction
+}
+
+func (p Profile) epicPct() int {
+	if p.EpicPct > 0 {
+		return p.EpicPct
+	}
+	return 30
+}
+
+func (p Profile) seqEpicPct() int {
+	if p.SeqEpicPct > 0 {
+		return p.SeqEpicPct
+	}
+	return 30
+}
+
+func (p Profile) statePct() int {
+	if p.StatePct > 0 {
+		return p.StatePct
+	}
+	return 45
+}
+
+func (p Profile) claimPct() int {
+	if p.ClaimPct != 0 {
+		return p.ClaimPct
+	}
+	return 30
 }
 
 var baseWeights = map[string]int{
@@ -203,7 +237,7 @@ func genFields(t *rapid.T, g refGen, prof Profile, op *Op, isNew, isEpic bool) {
 	if isEpic {
 		return
 	}
-	if pct(t, 30, "f.epic") {
+	if pct(t, prof.epicPct(), "f.epic") {
 		if json && pct(t, 20, "f.epic.empty") {
 			r := Lit("")
 			op.Epic = &r
@@ -214,10 +248,14 @@ func genFields(t *rapid.T, g refGen, prof Profile, op *Op, isNew, isEpic bool) {
 			}
 		}
 	}
-	if pct(t, 45, "f.state") {
-		op.State = sp(genState(t, "state"))
+	if pct(t, prof.statePct(), "f.state") {
+		if len(prof.StatePool) > 0 {
+			op.State = sp(oneOf(t, prof.StatePool, "state"))
+		} else {
+			op.State = sp(genState(t, "state"))
+		}
 	}
-	if pct(t, 30, "f.claim") {
+	if pct(t, prof.claimPct(), "f.claim") {
 		if json && pct(t, 20, "f.claim.empty") {
 			op.Claim = sp("")
 		} else {
@@ -320,6 +358,11 @@ func genOp(t *rapid.T, w *World, pre *Snapshot, prof Profile) Op {
 			weights[k] = 0
 		}
 	}
+	if w.Twin != nil || w.StepNo < 6 {
+		weights["fork_compact"] = 0
+	} else if weights["fork_compact"] > 0 {
+		weights["fork_compact"] *= 3
+	}
 	if nTasks > 12 {
 		weights["new_task"] = 1
 		weights["plan"] = 0
@@ -384,8 +427,14 @@ func genOp(t *rapid.T, w *World, pre *Snapshot, prof Profile) Op {
 	case "sequence":
 		n := between(t, 2, 4, "seq.n")
 		want := "task"
-		if pct(t, 30, "seq.epics") {
+		if pct(t, prof.seqEpicPct(), "seq.epics") {
 			want = "epic"
+		}
+		if pct(t, prof.MixedPct, "seq.mixed") {
+			if refs := genMixedSequence(t, g); refs != nil {
+				op.Refs = refs
+				break
+			}
 		}
 		if pct(t, 25, "seq.reverse") {
 			// aim at a cycle: take an existing edge and ask for the opposite order
@@ -426,7 +475,7 @@ func genOp(t *rapid.T, w *World, pre *Snapshot, prof Profile) Op {
 		if pct(t, prof.Spoil, "plan.spoil") {
 			damagePlan(t, &op)
 		}
-	case "prune", "prune_yes", "compact", "init":
+	case "prune", "prune_yes", "compact", "init", "fork_compact":
 	}
 	if (kind == "new_task" || kind == "set") && pct(t, prof.Spoil, "spoil") {
 		spoil(t, g, &op)
@@ -535,4 +584,37 @@ func describeOps(steps []StepOut) []string {
 		out = append(out, fmt.Sprintf("%s [%s/%s] %s", strings.Join(s.Cmd.Args, " "), s.Decision, acc, clip(s.Cmd.Stdin, 120)))
 	}
 	return out
+}
+
+// genMixedSequence aims at the interaction of task edges and epic edges: it proposes a
+// task edge between members of two different epics, or an epic edge between the epics of
+// two tasks that are already linked — in either direction, so that both harmless and
+// deadlocking requests arise.
+func genMixedSequence(t *rapid.T, g refGen) []Ref {
+	members := map[string][]string{}
+	var epicsWith []string
+	for _, id := range g.pre.SortedIDs() {
+		it := g.pre.Items[id]
+		if !it.IsEpic && it.EpicID != "" {
+			if len(members[it.EpicID]) == 0 {
+				epicsWith = append(epicsWith, it.EpicID)
+			}
+			members[it.EpicID] = append(members[it.EpicID], id)
+		}
+	}
+	if len(epicsWith) < 2 {
+		return nil
+	}
+	i := uni(t, len(epicsWith), "mixed.e1")
+	j := uni(t, len(epicsWith)-1, "mixed.e2")
+	if j >= i {
+		j++
+	}
+	e1, e2 := epicsWith[i], epicsWith[j]
+	if pct(t, 50, "mixed.level") {
+		return []Ref{g.ref(e1), g.ref(e2)}
+	}
+	t1 := oneOf(t, members[e1], "mixed.t1")
+	t2 := oneOf(t, members[e2], "mixed.t2")
+	return []Ref{g.ref(t1), g.ref(t2)}
 }
